@@ -202,6 +202,10 @@ def run(tier):
             return None
         o["items"] = o["items"][1:]
         return r
+    # every separator text over the alphabet of spec/CommentLex.tla (blanks and complete comments only), alone between tokens;
+    # through the default front end (expand_includes=True scans the text line by line first)
+    from .. import commentlex
+    commentlex.run(ck, tier, impl.loader(expand_includes=True))
     verdicts = tracecheck.validate("TraceOptions", records, "c05", ck=ck, chunk=300, canary=canary)
     for tid, v in verdicts.items():
         if v["verdict"] != "ok":
